@@ -477,7 +477,7 @@ impl SstBuilder {
 //@ rewrite-re? X9 `self\.last_key == key\b` => `bytes_eq(self.last_key.as_slice(), key)`
 //@ rewrite-re? X9 `self\.last_key\.as_slice\(\) != key\b` => `!bytes_eq(self.last_key.as_slice(), key)`
 //@ rewrite-re X15 `let block = self\.get_block\(key, timestamp\)\?;\s*block\.put\(key, timestamp, value\)\?;` => `self.get_block(key, timestamp)?; self.block_builder.as_mut().unwrap().put(key, timestamp, value)?;`
-//@ rewrite X7 `self.filter.push(Filter::defer_insert(key));` => `self.filter.push(filter_hash(key));`
+//@ rewrite-re? X7 `Filter::defer_insert\(key\)` => `filter_hash(key)`
 //@ pre <<
         old(self).swf(),
 //@ >>
@@ -522,7 +522,7 @@ impl SstBuilder {
 //@ rewrite-re? X9 `self\.last_key == key\b` => `bytes_eq(self.last_key.as_slice(), key)`
 //@ rewrite-re? X9 `self\.last_key\.as_slice\(\) != key\b` => `!bytes_eq(self.last_key.as_slice(), key)`
 //@ rewrite-re X15 `let block = self\.get_block\(key, timestamp\)\?;\s*block\.del\(key, timestamp\)\?;` => `self.get_block(key, timestamp)?; self.block_builder.as_mut().unwrap().del(key, timestamp)?;`
-//@ rewrite X7 `self.filter.push(Filter::defer_insert(key));` => `self.filter.push(filter_hash(key));`
+//@ rewrite-re? X7 `Filter::defer_insert\(key\)` => `filter_hash(key)`
 //@ pre <<
         old(self).swf(),
 //@ >>
